@@ -43,7 +43,6 @@ BASELINE_OFF_CMD = ('cd /repo && cargo nextest run --workspace --no-fail-fast --
                     '--profile pb --test-threads 8 --offline || cargo test --workspace --no-fail-fast --offline')
 
 NOT_APPLICABLE = {
-    'C07': 'pending: U_ops unit under construction in this session',
     'C08': 'save/load behaviour is the serde derive expansion of five types plus hand-written serde impls of three '
            'dependency crates plus bincode (emap deserialises through a std HashMap); no function of sodg can carry a '
            'contract beyond "calls bincode::serialize"; Verus cannot see derive output or external crates, Kani cannot hold a Sodg',
@@ -188,6 +187,25 @@ PROPS = {
         'data-step (collecting arm), bind-step (first_free), empty-state (sentinels), lemmas L06 (slot returns, free slot exists '
         'when fewer than 14 groups alive, no leaked slot, reserved slots never free).',
         []),
+    'C07': graph_prop(
+        'C07',
+        'contract-based deductive verification (Verus), two units on the same extracted functions: U_ops (total: every '
+        'container call within its safe-use precondition, without relying on debug assertions) and U_guard (guard-mode '
+        'shim: normal return => ids below the capacity, label fits, group had room); bounded Kani audit of the containers',
+        'Proof over the trusted container contracts that (1) within the limits no container call can leave its safe-use '
+        'precondition and no arithmetic can overflow, and (2) a call that exceeds a limit does not return normally, i.e. it '
+        'stops in the container\'s own panic before any write (every write goes through a container call). sodg itself has '
+        'no unsafe code; absence of UB inside the containers is NOT proved, only audited within small bounds (thorough tier).',
+        'U_ops: safety obligations (callee preconditions, unwrap, overflow) and wf/shape of every function; U_guard: the '
+        'guard-* postconditions of add/bind/put/data/kid.',
+        ['merge/join/slice are not covered (join() removes a vertex slot, which leaves the verified invariant)',
+         'microstack::Stack::from_vec() does not check its length (used only with a one-element vector in empty())',
+         'microstack::Stack::new() uses uninit().assume_init() on an array of MaybeUninit-free values (assumption)',
+         'leaks (emap never drops its elements) are not memory errors in the property\'s sense'],
+        extra=dict(units=['U_ops', 'U_guard'],
+                   level_note='Trusted: Verus/Z3; the total- and guard-mode container contracts (emap/micromap/microstack panic '
+                              'before any out-of-range access when debug assertions are on: audited by bounded Kani harnesses, '
+                              'not proved); debug-assertion builds (the property\'s own premise).')),
     'C10': graph_prop(
         'C10',
         'contract-based deductive verification (Verus): clone() postcondition (all four fields equal in the abstract view) + '
